@@ -40,6 +40,7 @@ func init() {
 		Rule: "sc/api: ref10 scalar routines and the public Scalar API on {0,1,l-1,l,l+1,2^252,2^253-1,2^255-1,2^256-1, single limb / limb-boundary patterns, random reduced and unreduced} vs math/big; " +
 			"pt: encodings of honest points, random strings, small-order and non-canonical encodings vs a math/big decoder; " +
 			"sv/svx: every generated key (RFC 8032 seed keys and raw scalars) x messages {empty, short, long}: bundled Sign -> std Verify, std Sign -> bundled Verify; " +
+			"ali/sca/pta/apx: every public Scalar and Point operation and the raw routines with the receiver/output fresh, = first operand, = second operand, both operands one object, all one object, on {0,1,2,l-1,l-2,l+1,2^256-1,random reduced/unreduced} resp. identity, base, small-order and honest points, vs math/big (affine Edwards arithmetic for points); " +
 			"mut: every (thorough) / a sample (quick) of the single-bit mutations of signature, message, key, plus S+l, truncation, extension: both verifiers must reject; " +
 			"non-trivial = every case whose operands are not all zero; distinct = distinct case line",
 		Gen:  gen,
@@ -514,7 +515,9 @@ func exec(line string) (res h.Result) {
 			res.Oracle = "unaltered-rejected: bv=" + bv + " sv=" + sv
 		}
 	default:
-		panic("bad case line")
+		if !execAlias(w, &res) {
+			panic("bad case line")
+		}
 	}
 	return
 }
@@ -807,4 +810,5 @@ func gen(tier string, rng *h.Rng, emit func(string)) {
 	genSign(rng, thorough, emit)
 	genMut(rng, thorough, emit)
 	genShortS(rng, thorough, emit)
+	genAlias(rng, thorough, emit)
 }
